@@ -29,7 +29,7 @@ THEOREMS = [
     "kth_neighbour", "chain_additive", "chain_additive_list", "triangle", "finite_lt_sentinel", "complex_max",
     "complex_zero_iff", "flush_eq", "flush_mono", "flush_collapse", "flush_normal_step", "flush_unspecified",
     "ulp_normal", "ulp_next_partial", "ulp_next_max", "ulp_prev_partial", "ulp_zero", "ulp_neg", "ulp_inf", "ulp_nan",
-    "ulp_subnormal_is_zero", "ulp_next_fails_subnormal", "ulp_witness_binary64", "ulp_witness_binary16",
+    "ulp_subnormal_is_zero", "ulp_next_fails_subnormal", "ulp_next_repaired", "ulp_witness_binary64", "ulp_witness_binary16",
 ]
 SEARCHED = [
     "IEEE addition: x + ulp(x) is computed by hardware/NumPy; the theorems state the exact sum is the neighbour's value "
@@ -411,8 +411,8 @@ def ulp_signature(w, f):
 
 
 def diff_signature(w, f):
-    pats = f.get("complex") or f.get("chain") or [f["x"], f["y"]]
-    return f"diff_ulp:{f['clause']}:flush={f['flush']}:{sig_class(w, *pats)}"
+    """cause signature: the clause and the flush mode (UNSPECIFIED is the no-flush mode); the input class goes into the text"""
+    return f"diff_ulp:{f['clause']}:flush={'1' if f['flush'] == '1' else '0'}"
 
 
 # --------------------------------------------------------------------------------------
@@ -553,7 +553,7 @@ def run(ctx):
              "c128": np.complex128(1.5 + 2j), "py": 1.5}
     for kx in kinds:
         for ky in kinds:
-            if (kx[0] == "f" and ky[0] == "c") or (kx[0] == "c" and ky in ("py",) or (kx[0] == "c" and ky[0] == "f")):
+            if (kx[0] == "f" and ky[0] == "c") or (kx[0] == "c" and ky[0] != "c"):
                 continue  # mixed real/complex: not modelled (numpy comparison semantics of complex)
             r = npx.call(npx.utils.diff_ulp, kinds[kx], kinds[ky])
             add(f"k {kx} {ky}", r if isinstance(r, str) else "ok", ("k", kx, ky))
@@ -679,7 +679,9 @@ def run(ctx):
     lean_items = [b for b in broken]
     for sig, fs in seen.items():
         f = min(fs, key=lambda g: (g["w"], g.get("x", 0)))
-        what = (f"{f['fn']} clause `{f['clause']}` fails on the real code: {json.dumps(f)} ({len(fs)} failing inputs with this signature)")
+        pats = f.get("complex") or f.get("chain") or ([f["x"], f["y"]] if "y" in f else [f["x"]])
+        what = (f"{f['fn']} clause `{f['clause']}` fails on the real code ({DT[f['w']]}, input classes {sig_class(f['w'], *pats)}): "
+                f"{json.dumps(f)} ({len(fs)} failing inputs with this signature)")
         items = []
         if f["fn"] == "ulp":
             items = [corr_items.get("u")]
@@ -699,7 +701,8 @@ def run(ctx):
         ctx.violation(sig, what, f, broken_item=items[0] if items else None)
         for it in items[1:]:
             it["has_failing_input"] = True
-    ctx.sample(dict(stream="float16 neighbour", line=lines[len(corpus) * 6 + 7 * 65536 // 2] if len(lines) > 300000 else lines[0]))
+    ctx.sample(dict(stream="float16 neighbour", line=next((l for l, m in zip(lines, meta) if m[0] == "d" and m[1] == 16 and m[4] == 0x03ff), None)))
+    ctx.sample(dict(stream="float64 structured", line=next((l for l in reversed(lines) if l.startswith("d 64")), None)))
     ctx.sample(dict(stream="last complex", line=next((l for l in reversed(lines) if l.startswith("c ")), None)))
     ctx.sample(dict(stream="ulp", line=next((l for l in lines if l.startswith("u 64")), None)))
     ctx.exhaustive = False
